@@ -8,6 +8,7 @@ import (
 	"fmt"
 	"io"
 	"log/slog"
+	"net"
 	"net/http"
 	"net/http/httptest"
 	"net/url"
@@ -19,6 +20,7 @@ import (
 
 	"verif/vlib"
 
+	"github.com/a-h/templ/cmd/templ/generatecmd"
 	"github.com/a-h/templ/cmd/templ/generatecmd/proxy"
 	"github.com/a-h/templ/cmd/templ/generatecmd/sse"
 	"github.com/a-h/templ/vsched"
@@ -326,7 +328,97 @@ func (w *stallRW) Write(p []byte) (int, error) {
 
 // raceMode: stable clients, clients that keep connecting and leaving, and back-to-back broadcasts on real
 // goroutines. Only the race detector's verdict (and a crash of the process) is used from this pass.
+// longLived: a browser that stays subscribed through the REAL proxy server (started the way `templ generate --watch
+// --proxy` starts it) for longer than any timeout a server might be configured with: 31 s in the quick tier, 125 s in
+// the thorough one, in real time, while the rest of this pass runs. It must get a broadcast right after subscribing
+// and another one at the end. Returns a function that waits for the end and reports what went wrong ("" = nothing).
+func longLived(hold time.Duration) func() string {
+	backend := httptest.NewServer(http.HandlerFunc(func(w http.ResponseWriter, r *http.Request) { io.WriteString(w, "ok") }))
+	l, err := net.Listen("tcp", "127.0.0.1:0")
+	if err != nil {
+		return func() string { return "" } // no loopback networking here: nothing to say
+	}
+	port := l.Addr().(*net.TCPAddr).Port
+	l.Close()
+	g, err := generatecmd.NewGenerate(slog.New(slog.NewTextHandler(io.Discard, nil)), generatecmd.Arguments{Proxy: backend.URL, ProxyPort: port, ProxyBind: "127.0.0.1"})
+	if err != nil {
+		vlib.Fatal("NewGenerate: %v", err)
+	}
+	ctx, cancel := context.WithCancel(context.Background())
+	p, err := g.StartProxy(ctx)
+	if err != nil || p == nil {
+		vlib.Fatal("StartProxy: %v", err)
+	}
+	var resp *http.Response
+	for i := 0; i < 200; i++ {
+		resp, err = http.Get(fmt.Sprintf("http://127.0.0.1:%d/_templ/reload/events", port))
+		if err == nil {
+			break
+		}
+		time.Sleep(25 * time.Millisecond)
+	}
+	if err != nil {
+		vlib.Fatal("the proxy started by StartProxy is not reachable: %v", err)
+	}
+	start := time.Now()
+	var mu sync.Mutex
+	reloads, streamErr := 0, ""
+	go func() {
+		buf := make([]byte, 4096)
+		for {
+			n, err := resp.Body.Read(buf)
+			mu.Lock()
+			reloads += strings.Count(string(buf[:n]), "data: reload")
+			if err != nil {
+				streamErr = err.Error()
+				mu.Unlock()
+				return
+			}
+			mu.Unlock()
+		}
+	}()
+	got := func(want int, within time.Duration) bool {
+		deadline := time.Now().Add(within)
+		for time.Now().Before(deadline) {
+			mu.Lock()
+			ok := reloads >= want
+			mu.Unlock()
+			if ok {
+				return true
+			}
+			time.Sleep(5 * time.Millisecond)
+		}
+		return false
+	}
+	p.SendSSE("message", "reload")
+	first := got(1, 20*time.Second)
+	return func() string {
+		defer cancel()
+		defer backend.Close()
+		if !first {
+			return "a client subscribed through the server started by StartProxy did not receive the first reload broadcast"
+		}
+		if d := hold - time.Since(start); d > 0 {
+			time.Sleep(d)
+		}
+		p.SendSSE("message", "reload")
+		if !got(2, 20*time.Second) {
+			mu.Lock()
+			defer mu.Unlock()
+			return fmt.Sprintf("a client that had been subscribed through the server started by StartProxy for %.0f s did not receive the reload broadcast (stream error: %q)", time.Since(start).Seconds(), streamErr)
+		}
+		return ""
+	}
+}
+
 func raceMode() {
+	hold := 31 * time.Second
+	for _, a := range os.Args {
+		if a == "thorough" {
+			hold = 125 * time.Second
+		}
+	}
+	finishLongLived := longLived(hold)
 	const stable, churners, sends = 4, 4, 1500
 	h := sse.New()
 	var wg sync.WaitGroup
@@ -415,7 +507,9 @@ func raceMode() {
 	for _, n := range churned {
 		total += n
 	}
-	b, _ := json.Marshal(map[string]any{"stable_clients": stable, "churning_goroutines": churners, "broadcasts": sends, "connect_disconnect_cycles": total, "stable_clients_received_everything": all, "stalled_client_during_all_broadcasts": true})
+	mismatch := finishLongLived()
+	b, _ := json.Marshal(map[string]any{"stable_clients": stable, "churning_goroutines": churners, "broadcasts": sends, "connect_disconnect_cycles": total, "stable_clients_received_everything": all, "stalled_client_during_all_broadcasts": true,
+		"client_subscribed_through_the_real_proxy_server_for_seconds": hold.Seconds(), "mismatch": mismatch})
 	os.WriteFile(filepath.Join(os.Getenv("VERIF_SCRATCH"), "race.json"), b, 0o644)
 }
 
